@@ -279,6 +279,7 @@ package gateway
 //@         h.snOut[old(h.snOutN)].(*snPkts1.Connack).ReturnCode == 3)
 //@   ensures [C08] carries_decoded_credentials: t.authenticated && !old(t.authenticated) ==> t.mqConnect.UsernameFlag && t.mqConnect.PasswordFlag &&
 //@      t.mqConnect.Username == user && sameSlice(t.mqConnect.Password, pass)
+//@   ensures [C08] only_well_formed_plain_authenticates: t.authenticated && !old(t.authenticated) ==> snPkt.Method == "PLAIN" && sepCount(snPkt.Data) == 2
 //@   ensures [C08] connect_only_when_authenticated: h.mqttOutN != old(h.mqttOutN) ==> t.authenticated && old(t.state) == 0 &&
 //@      h.mqttOutN == old(h.mqttOutN) + 1 && h.mqttOut[old(h.mqttOutN)] == box(*mqPkts.ConnectPacket, t.mqConnect)
 
@@ -290,8 +291,10 @@ package gateway
 //@   let h = t.handler
 //@   assigns t.state, t.mqConnect.WillFlag, t.mqConnect.WillQos, t.mqConnect.WillRetain, t.mqConnect.WillTopic,
 //@      h.mqttOutN, h.mqttOut, h.snOutN, h.snOut, h.pktBuffer
+//@   at mqttSend.0 before assert [C08] auth_first: t.authEnabled ==> t.authenticated
+//@   at mqttSend.0 before assert [C08] configured_credentials: !t.authEnabled ==> credsFromCfg(t)
 //@   ensures [C09] keeps: ctInv(t)
-//@   ensures [C09] ignored_unless_awaited: old(t.state) != 1 ==> result == nil && h.mqttOutN == old(h.mqttOutN) && h.snOutN == old(h.snOutN) &&
+//@   ensures [C08,C09] ignored_unless_awaited: old(t.state) != 1 ==> result == nil && h.mqttOutN == old(h.mqttOutN) && h.snOutN == old(h.snOutN) &&
 //@      t.state == old(t.state) && t.mqConnect.WillTopic == old(t.mqConnect.WillTopic) && t.mqConnect.WillFlag == old(t.mqConnect.WillFlag)
 //@   ensures [C09] takes_will_topic: old(t.state) == 1 && len(snWillTopic.WillTopic) != 0 ==> t.state == 2 && h.mqttOutN == old(h.mqttOutN) &&
 //@      t.mqConnect.WillTopic == snWillTopic.WillTopic && t.mqConnect.WillQos == snWillTopic.QOS && t.mqConnect.WillRetain == snWillTopic.Retain &&
@@ -309,7 +312,7 @@ package gateway
 //@   at mqttSend.0 before assert [C08] auth_first: t.authEnabled ==> t.authenticated
 //@   at mqttSend.0 before assert [C08] configured_credentials: !t.authEnabled ==> credsFromCfg(t)
 //@   ensures [C09] keeps: ctInv(t)
-//@   ensures [C09] ignored_unless_awaited: old(t.state) != 2 ==> result == nil && h.mqttOutN == old(h.mqttOutN) && t.state == old(t.state) &&
+//@   ensures [C08,C09] ignored_unless_awaited: old(t.state) != 2 ==> result == nil && h.mqttOutN == old(h.mqttOutN) && t.state == old(t.state) &&
 //@      sameSlice(t.mqConnect.WillMessage, old(t.mqConnect.WillMessage))
 //@   ensures [C09] connects_with_will: old(t.state) == 2 ==> t.state == 3 && sameSlice(t.mqConnect.WillMessage, snWillMsg.WillMsg) &&
 //@      (h.mqttOutN == old(h.mqttOutN) || h.mqttOutN == old(h.mqttOutN) + 1) && (result == nil ==> h.mqttOutN == old(h.mqttOutN) + 1) &&
@@ -346,7 +349,7 @@ package gateway
 //@   ensures [C25] keeps_store: storeInv(h.transactions)
 //@   ensures [C25] keeps_seq: topicSeq(h)
 //@   ensures [C25] keeps_reg: regTypes(h) && boundOnce(h)
-//@   ensures [C25] keeps_buf: bufWF(h)
+//@   ensures [C25,C23] keeps_buf: bufWF(h)
 //@   ensures [C25] keeps_conn: connTx(h)
 //@   ensures [C25] keeps_tx_old: forall k uint16 :: (k in h.transactions.bypktID) ==> txEntryWF(h, h.transactions.bypktID[k])
 //@   ensures [C25] keeps_entries: txEntries(h)
@@ -439,7 +442,7 @@ package gateway
 //@   ensures [C25] keeps_seq: topicSeq(h)
 //@   ensures [C25] keeps_reg: regTypes(h)
 //@   ensures [C25] keeps_bound: boundOnce(h)
-//@   ensures [C25] keeps_buf: bufWF(h)
+//@   ensures [C25,C23] keeps_buf: bufWF(h)
 //@   ensures [C25] keeps_conn: connTx(h)
 //@   ensures [C25] keeps_tx_new: (snSubscribe.messageID in h.transactions.bypktID) ==> txEntryWF(h, h.transactions.bypktID[snSubscribe.messageID])
 //@   ensures [C25] keeps_tx_old: forall k uint16 :: k != snSubscribe.messageID && (k in h.transactions.bypktID) ==> txEntryWF(h, h.transactions.bypktID[k])
@@ -466,6 +469,13 @@ package gateway
 //@      h.snOut[old(h.snOutN)].(*snPkts1.Suback).messageID == snSubscribe.messageID
 //@   ensures [C04] never_rebinds: forall k iface :: old(k in h.registeredTopics) ==> (k in h.registeredTopics) &&
 //@      smGet(h.registeredTopics, k) == old(smGet(h.registeredTopics, k))
+// C02 (client's own knowledge): a SUBSCRIBE step tells the client no topic ID (the SUBACK carrying it is sent by a
+// later step, Suback), so it must not make an ID usable for PUBLISHes to the client yet.
+//@   ensures [C02] binds_nothing_for_predefined_or_short: snSubscribe.TopicIDType != 0 ==> (forall k iface :: (k in h.registeredTopics) ==> old(k in h.registeredTopics))
+//@   ensures [C02] binds_only_the_id_of_the_pending_suback: forall k iface :: (k in h.registeredTopics) && !old(k in h.registeredTopics) ==>
+//@      (snSubscribe.messageID in h.transactions.bypktID) && istype(h.transactions.bypktID[snSubscribe.messageID], *subscribeTransaction) &&
+//@      k == box(uint16, h.transactions.bypktID[snSubscribe.messageID].(*subscribeTransaction).topicID)
+//@   ensures [C02] binds_no_id_before_the_client_is_told: snSubscribe.TopicIDType == 0 ==> (forall k iface :: (k in h.registeredTopics) ==> old(k in h.registeredTopics))
 //@   ensures [C25] state_same: state(h) == old(state(h))
 
 //@ func (*handler1).handleUnsubscribe
@@ -504,7 +514,7 @@ package gateway
 //@   ensures [C25] keeps_seq: topicSeq(h)
 //@   ensures [C25] keeps_reg: regTypes(h)
 //@   ensures [C25] keeps_bound: boundOnce(h)
-//@   ensures [C25] keeps_buf: bufWF(h)
+//@   ensures [C25,C23] keeps_buf: bufWF(h)
 //@   ensures [C25] keeps_conn: connTx(h)
 //@   ensures [C25] keeps_entries: txEntries(h)
 //@   ensures [C25] keeps_pend: pendInv(h)
@@ -520,11 +530,16 @@ package gateway
 //@   ensures [C03] pingresp_relayed_when_active: istype(pkt, *mqPkts.PingrespPacket) ==> h.mqttOutN == m0 &&
 //@      (old(state(h)) != 1 ==> h.snOutN == s0 && result == nil) &&
 //@      (old(state(h)) == 1 && result == nil ==> h.snOutN == s0 + 1 && istype(h.snOut[s0], *snPkts1.Pingresp))
+// C11: the broker's answers to the gateway's own sleep pinger are dropped, not queued for the sleeping client
+// (a queued PINGRESP would end the client's next awake period before the buffered packets are delivered).
+//@   ensures [C11] pingresp_never_queued: istype(pkt, *mqPkts.PingrespPacket) && old(state(h)) != 1 ==> h.snOutN == s0 && sameSlice(h.pktBuffer, old(h.pktBuffer))
 //@   ensures [C03] suback_needs_exchange: istype(pkt, *mqPkts.SubackPacket) ==> h.mqttOutN == m0 && (h.snOutN == s0 || h.snOutN == s0 + 1) &&
 //@      (h.snOutN == s0 + 1 ==> istype(h.snOut[s0], *snPkts1.Suback) && h.snOut[s0].(*snPkts1.Suback).messageID == pkt.(*mqPkts.SubackPacket).MessageID)
 //@   ensures [C07] activation_only_by_connack: state(h) != old(state(h)) ==> istype(pkt, *mqPkts.ConnackPacket) && state(h) == 1 &&
 //@      pkt.(*mqPkts.ConnackPacket).ReturnCode == 0
 //@   ensures [C14] no_packet_to_broker_except_publish_flows: !istype(pkt, *mqPkts.PublishPacket) && !istype(pkt, *mqPkts.PubrelPacket) ==> h.mqttOutN == m0
+// C02 (client's own knowledge): no step for a broker packet makes a topic ID usable.
+//@   ensures [C02] binds_no_id: forall k iface :: (k in h.registeredTopics) ==> old(k in h.registeredTopics)
 
 // ---- sleep pinger (its timing is not decided by contracts; see C12 / C33 not applicable) ----
 //@ func (*handler1).startSleepPinger
@@ -570,7 +585,7 @@ package gateway
 //@   ensures [C25] keeps_seq: topicSeq(h)
 //@   ensures [C25] keeps_reg: regTypes(h)
 //@   ensures [C25] keeps_bound: boundOnce(h)
-//@   ensures [C25] keeps_buf: bufWF(h)
+//@   ensures [C25,C23] keeps_buf: bufWF(h)
 //@   ensures [C25] keeps_conn: connTx(h)
 //@   ensures [C25] keeps_entries: txEntries(h)
 //@   ensures [C25] keeps_pend: pendInv(h)
@@ -604,3 +619,12 @@ package gateway
 //@      smGet(h.registeredTopics, box(uint16, h.snOut[s0].(*snPkts1.Regack).TopicID)) == box(string, pkt.(*snPkts1.Register).TopicName)
 //@   ensures [C04] never_rebinds: forall k iface :: old(k in h.registeredTopics) ==> (k in h.registeredTopics) &&
 //@      smGet(h.registeredTopics, k) == old(smGet(h.registeredTopics, k))
+// C02 (client's own knowledge): a topic ID becomes usable for PUBLISHes to the client only in a step in which the
+// client learns or confirms it: the client's own REGACK accepting the gateway's REGISTER, or the client's REGISTER
+// answered in this very step (sent, or queued for a sleeping client ahead of any later PUBLISH) by the accepting REGACK that carries the ID.
+//@   ensures [C02] new_binding_known_to_client: result == nil ==> (forall k iface :: (k in h.registeredTopics) && !old(k in h.registeredTopics) ==>
+//@      (istype(pkt, *snPkts1.Regack) && pkt.(*snPkts1.Regack).ReturnCode == 0) ||
+//@      (istype(pkt, *snPkts1.Register) && old(state(h)) != 2 && h.snOutN == s0 + 1 && istype(h.snOut[s0], *snPkts1.Regack) &&
+//@         h.snOut[s0].(*snPkts1.Regack).ReturnCode == 0 && k == box(uint16, h.snOut[s0].(*snPkts1.Regack).TopicID)) ||
+//@      (istype(pkt, *snPkts1.Register) && old(state(h)) == 2 && len(h.pktBuffer) == old(len(h.pktBuffer)) + 1 && istype(h.pktBuffer[old(len(h.pktBuffer))], *snPkts1.Regack) &&
+//@         h.pktBuffer[old(len(h.pktBuffer))].(*snPkts1.Regack).ReturnCode == 0 && k == box(uint16, h.pktBuffer[old(len(h.pktBuffer))].(*snPkts1.Regack).TopicID)))
